@@ -302,7 +302,7 @@ func init() {
 }
 
 func genC17(rng *rand.Rand, tier string, w *bufio.Writer) {
-	cases, maxLen := 140, 14
+	cases, maxLen := 100, 14
 	if tier == "thorough" {
 		cases, maxLen = 1500, 30
 	}
